@@ -168,6 +168,21 @@ func (m *MonC01) OnPassEnd(w *World, p *Pass) {
 			return
 		}
 	}
+	// refusal-not-retried: "a permitted adoption is always carried out" - what makes an adoption permitted
+	// (a foreign controller lets go of an object PKO's cache does not even see) need not produce an event,
+	// so a pass that reports a refusal and asks for no retry may have decided for good
+	if !p.Faulted && !p.Crashed && p.Panic == "" && p.Err == nil && !p.Requeue && p.After <= 0 {
+		for _, r := range p.Reqs {
+			if r.Verb == "update-status" && r.Succeeded() && r.Name == p.Key.Name && r.GVK.Kind == p.Ctrl {
+				if c := FindCond(r.Body, "Available"); c != nil && c.Status == "False" && c.Reason == "CollisionDetected" {
+					m.touch()
+					w.Report(Violation{Property: "C01", Rule: "refusal-not-retried", Sig: p.Ctrl, Seq: p.EndSeq,
+						Msg: fmt.Sprintf("pass %d of %s %s reported %q and scheduled no retry", p.ID, p.Ctrl, p.Key, c.Message)})
+					return
+				}
+			}
+		}
+	}
 	strategy, tc := strategyOf(p), targetCluster(p)
 	rev := ownerRevision(p, owner)
 	previous := observedPrevious(p, owner)
